@@ -597,6 +597,7 @@ func famCompare(dir string, seed int64, tier string) {
 	wCb.flush()
 	apiLongStreamReaders(rep, r)
 	apiCompareEmptyStreams(rep)
+	apiCompareLockStep(rep)
 	apiSentinelBounds(rep)
 	rep.write(dir)
 	repCb.write(dir)
